@@ -857,7 +857,8 @@ class Transaction:
 
         except (Exception, asyncio.CancelledError) as e:  # CancelledError is not an Exception since python 3.8
             log.exception('Failed to create transaction:')
-            await ledger.release_tx(tx)
+            # a cancellation arriving now must not interrupt the release, nobody else would ever do it
+            await asyncio.shield(ledger.release_tx(tx))
             raise e
 
         return tx
